@@ -86,7 +86,22 @@ func (tw *c20Twin) dump(ctx sdk.Context) c20FullDump {
 	return out
 }
 
+// a counter that reads 0 either way: an empty value (the encoding of UInt64Value 0) under a key of at
+// most 9 bytes (prefix, or prefix + app id).  ExportGenesis / InitGenesis write such keys for every app
+// (liquidity LastPairId / LastPoolId of an app without pairs) where the original chain has none.
+func c20DropZeroCounters(es []c20Entry) []c20Entry {
+	var out []c20Entry
+	for _, e := range es {
+		if e.v == 0 && e.klen <= 9 {
+			continue
+		}
+		out = append(out, e)
+	}
+	return out
+}
+
 func c20EntriesEqual(x, y []c20Entry) bool {
+	x, y = c20DropZeroCounters(x), c20DropZeroCounters(y)
 	if len(x) != len(y) {
 		return false
 	}
@@ -133,11 +148,12 @@ func c20DumpDigest(d c20FullDump, excl map[string]bool) uint64 {
 		var m string
 		var b int
 		fmt.Sscanf(k, "%s %d", &m, &b)
-		if len(d[m][b]) == 0 {
+		es := c20DropZeroCounters(d[m][b])
+		if len(es) == 0 {
 			continue
 		}
 		sb.WriteString(k)
-		sb.WriteString(c20EntriesStr(d[m][b]))
+		sb.WriteString(c20EntriesStr(es))
 		sb.WriteByte(';')
 	}
 	return c20Hash([]byte(sb.String()))
@@ -329,7 +345,6 @@ func TestC20Rich(t *testing.T) {
 	r := newRng(seed() + 424242)
 	ncases := envInt("VERIF_CASES", len(c20RichWorlds))
 	only := envInt("VERIF_CASE", -1)
-	wholeDone := false
 	for ci := 0; ci < ncases; ci++ {
 		cs := r.next()
 		if only >= 0 && ci != only {
@@ -345,12 +360,9 @@ func TestC20Rich(t *testing.T) {
 			w.cont(tw)
 		}
 		c20Debug("case %d world %s: %d continuation steps, %.1fs", ci, wd.name, tw.n, time.Since(t0).Seconds())
-		// the whole application once per run (and for the case that is replayed)
-		if !wholeDone || only >= 0 {
-			wholeDone = true
-			t1 := time.Now()
-			c20WholeApp(t, w.a, tr, w.ctx, ci)
-			c20Debug("case %d whole application: %.1fs", ci, time.Since(t1).Seconds())
-		}
+		// the whole application: module manager export of the rich state -> InitChain of a fresh application
+		t1 := time.Now()
+		c20WholeApp(t, w.a, tr, w.ctx, ci)
+		c20Debug("case %d whole application: %.1fs", ci, time.Since(t1).Seconds())
 	}
 }
